@@ -15,5 +15,5 @@ CHECK = {'level': 'fault_enumeration',
                'allocation balance, state-unchanged and retry oracles. Sites not reached by the scenarios are not covered; evidence reports fault points injected.',
  'level_note': 'Trusted: the allocation shim (forced include), the SQLite allocator hook, snapshot() through public getters.',
  'engines': [{'src': 'pbt/C17_oom.cpp',
-              'quick': {'workers': 8, 'cases': 60, 'size': 100},
+              'quick': {'workers': 8, 'cases': 160, 'size': 100},
               'thorough': {'workers': 16, 'cases': 3000, 'size': 100}}]}
